@@ -150,6 +150,7 @@ def ref_eval_points(algo, u1, v1, a1, un, vn, an, prm):
 
 
 def run(ctx):
+    ctx.attempt(step_commit_rule, ctx)
     # 'for all step sequences including switching algorithm or step size between steps': no memo of a scheme-dependent quantity survives a change of the scheme
     from ..shared import memo_rule as _memo_rule, cached_param_rule as _cached_param_rule
 
@@ -448,3 +449,71 @@ def vanishing_vars(d: Poly, rng):
                 out.append(v)
     # cofactor: all coefficients of one sign and every variable >= 0 with a non-zero constant term -> never zero
     return out
+
+
+def step_commit_rule(ctx):
+    """R5.10: one step = solve, correct, commit -- in that order and through one tuple.  `_Solver_Solve_problemType` is
+    interpreted (linear and Newton path) with recording stubs: the corrector receives what the solver returned, it is
+    evaluated BEFORE the committed state is replaced (it reads u_n, v_n, a_n), `_Set_solutions` receives the corrector's
+    (u, v, a) in that order and stores them in the u / v / a slots; the step returns the new displacement."""
+    from ..xeval import Interp, XObj, FuncInfo, _Bound, XRaise
+    from ..xarray import XArray
+
+    repo = ctx.repo
+    r = ctx.rule("R5.10", "step sequencing: solve -> corrector (reading the old state) -> commit of the corrector's (u, v, a) into the u / v / a slots; the step returns the new displacement", min_instances=3)
+    simu = repo.cls(SIMU)
+    f = simu.methods["_Solver_Solve_problemType"]
+    fset = simu.methods["_Set_solutions"]
+    for nonlinear in (False, True):
+        r.instance(fn=f.qualname)
+        log = []
+        U = XArray((2,), [Poly.var("U0"), Poly.var("U1")])
+        upd = (XArray((2,), [Poly.var("u0"), Poly.var("u1")]), XArray((2,), [Poly.var("v0"), Poly.var("v1")]), XArray((2,), [Poly.var("a0"), Poly.var("a1")]))
+
+        def update(pt, u, log=log, upd=upd):
+            log.append(("update", u))
+            return upd
+
+        def setsol(pt, *a, log=log):
+            log.append(("commit", a))
+
+        obj = XObj(simu, {"isNonLinear": nonlinear, "_Solver_Solve_Newton_Raphson": lambda pt, U=U: (U, 3, 0.0, []), "_Solver_Update_solutions": update, "_Set_solutions": setsol})
+
+        def hook(fn, args, kwargs, U=U):
+            fi = fn if isinstance(fn, FuncInfo) else getattr(fn, "finfo", None)
+            if isinstance(fi, FuncInfo) and fi.name == "Solve_simu":
+                return (U, None)
+            return NotImplemented
+
+        I = Interp(repo)
+        I.call_hook = hook
+        try:
+            ret = I.call_function(f, [Opaque("pt")], self_obj=obj)
+        except XRaise as e:
+            r.fail(f.qualname, f"sequence:{'newton' if nonlinear else 'linear'}", f.file, f.lineno, "_Solver_Solve_problemType", f"raises {e}")
+            continue
+        kinds = [k for k, _ in log]
+        bad = None
+        if kinds != ["update", "commit"]:
+            bad = f"the step performs {kinds}, expected one corrector evaluation followed by one commit"
+        elif log[0][1] is not U:
+            bad = "the corrector does not receive the vector the solver returned"
+        elif len(log[1][1]) != 3 or any(x is not y for x, y in zip(log[1][1], upd)):
+            bad = "the commit does not receive the corrector's (u, v, a) in that order"
+        elif ret is not upd[0]:
+            bad = "the step does not return the new displacement"
+        if bad:
+            r.fail(f.qualname, f"sequence:{'newton' if nonlinear else 'linear'}", f.file, f.lineno, "_Solver_Solve_problemType", f"{'Newton' if nonlinear else 'linear'} path: {bad}")
+        else:
+            r.ok(f"{'Newton' if nonlinear else 'linear'} path: solve -> corrector -> commit(u, v, a)")
+    # the commit stores each vector in its own slot
+    r.instance(fn=fset.qualname)
+    log = []
+    obj = XObj(simu, {simu.mangle("__Set_u_n"): lambda pt, x: log.append(("u", x)), simu.mangle("__Set_v_n"): lambda pt, x: log.append(("v", x)), simu.mangle("__Set_a_n"): lambda pt, x: log.append(("a", x))})
+    u, v, a = (XArray((1,), [Poly.var(n)]) for n in "uva")
+    Interp(repo).call_function(fset, [Opaque("pt"), u, v, a], self_obj=obj)
+    got = {k: x for k, x in log}
+    if got.get("u") is u and got.get("v") is v and got.get("a") is a and len(log) == 3:
+        r.ok("_Set_solutions: u -> u slot, v -> v slot, a -> a slot")
+    else:
+        r.fail(fset.qualname, "slots", fset.file, fset.lineno, "_Set_solutions", f"(u, v, a) are stored as {[(k, getattr(x, 'data', x)) for k, x in log]}")
